@@ -10,3 +10,11 @@ mod unique_vars;
 pub use basic_block::BasicBlock;
 pub use cfg::{Cfg, DefinitionType, Index};
 pub use lifting::IntoCfg;
+
+/// Verification hooks: the variable-renaming pass and the pass budget that
+/// stands in for the wall-clock time box of value and degree propagation.
+#[cfg(circomspect_verif)]
+pub mod verif {
+    pub use super::cfg::verif_budget::{set_degree_pass_budget, set_value_pass_budget};
+    pub use super::unique_vars::ensure_unique_variables;
+}
